@@ -24,8 +24,16 @@ import traceback
 from concurrent.futures import ThreadPoolExecutor
 
 VERIF = os.path.dirname(os.path.dirname(os.path.abspath(__file__)))
+
+
+def h64_str(s):
+    return hashlib.blake2b(s.encode(), digest_size=6).hexdigest()
+
+
 REPO = os.environ.get('COMA_REPO', '/repo')
 PY = os.environ.get('COMA_PY', '/venv/bin/python')
+# evidence and replay witnesses of runs against a scratch tree (COMA_REPO set) are not evidence for /repo
+OUT_BASE = VERIF if REPO == '/repo' else os.path.join(tempfile.gettempdir(), 'vf_scratch_' + h64_str(REPO))
 
 
 def use_repo():
@@ -190,7 +198,7 @@ def run_check(pid, tier, seed, jobs=None):
                      % (pid, k, listed[k]['what'], 'still fails' if still else 'did not fail', known_keys[k]))
     status = 0
     seen_keys = set()
-    rdir = os.path.join(VERIF, 'replay', pid)
+    rdir = os.path.join(OUT_BASE, 'replay', pid)
     if new_viol:
         status = 1
         os.makedirs(rdir, exist_ok=True)
@@ -228,8 +236,8 @@ def run_check(pid, tier, seed, jobs=None):
           'assumptions': list(getattr(mod, 'ASSUMPTIONS', [])) + [
               'tree under test: %s (imported fresh in every shard subprocess)' % REPO],
           'wall_s': round(time.time() - t0, 2), 'violations': len(new_viol)}
-    os.makedirs(os.path.join(VERIF, 'evidence'), exist_ok=True)
-    with open(os.path.join(VERIF, 'evidence', pid + '.json'), 'w') as f:
+    os.makedirs(os.path.join(OUT_BASE, 'evidence'), exist_ok=True)
+    with open(os.path.join(OUT_BASE, 'evidence', pid + '.json'), 'w') as f:
         json.dump(ev, f, indent=1, default=str)
     for ln in lines:
         print(ln)
